@@ -11,6 +11,7 @@ import (
 	"os"
 	"strings"
 	"sync"
+	"time"
 	"unsafe"
 
 	"golang.org/x/tools/go/ssa"
@@ -191,27 +192,28 @@ func compile(fn *ssa.Function) *fnInfo {
 // ---- interpreter state ------------------------------------------------
 
 type Interp struct {
-	sh       *Shared
-	prog     *ssa.Program
-	globals  map[*ssa.Global]*value
-	tr       trail
-	ts       *TermStore
-	ex       *pathExec // current path (nil during init)
-	initMode bool
-	initWarn map[string]int
-	steps    int64
-	budget   int64
-	depth    int
-	trace    bool
-	clock    int64
-	uuidSeq  int
-	hostObjs map[string]value
-	funcsRun map[*ssa.Function]struct{}
-	mapRange map[string]int
-	worker   *Worker
-	infoCache map[*ssa.Function]*fnInfo
-	methCache map[methKey]*ssa.Function
-	failStack string
+	sh           *Shared
+	prog         *ssa.Program
+	globals      map[*ssa.Global]*value
+	tr           trail
+	ts           *TermStore
+	ex           *pathExec // current path (nil during init)
+	initMode     bool
+	initWarn     map[string]int
+	steps        int64
+	budget       int64
+	depth        int
+	trace        bool
+	clock        int64
+	uuidSeq      int
+	hostObjs     map[string]value
+	funcsRun     map[*ssa.Function]struct{}
+	mapRange     map[string]int
+	worker       *Worker
+	infoCache    map[*ssa.Function]*fnInfo
+	methCache    map[methKey]*ssa.Function
+	failStack    string
+	pathDeadline time.Time
 }
 
 type deferred struct {
@@ -501,8 +503,19 @@ func (i *Interp) callSSA(caller *frame, callpos token.Pos, fn *ssa.Function, arg
 			return r
 		}
 	}
-	if fn.Name() == "init" && fn.Pkg != nil && fn.Signature.Recv() == nil && skipInit(fn.Pkg.Pkg.Path()) {
-		return nil
+	if fn.Name() == "init" && fn.Pkg != nil && fn.Signature.Recv() == nil {
+		if skipInit(fn.Pkg.Pkg.Path()) {
+			return nil
+		}
+		if i.initMode && os.Getenv("GOSYM_INITTIME") != "" {
+			t0 := time.Now()
+			s0 := i.steps
+			defer func() {
+				if d := time.Since(t0); d > 50*time.Millisecond {
+					fmt.Fprintf(os.Stderr, "init %s: %.2fs (cumulative), %d instrs\n", fn.Pkg.Pkg.Path(), d.Seconds(), i.steps-s0)
+				}
+			}()
+		}
 	}
 	if fn.Blocks == nil {
 		if alt := i.altBody(fn); alt != nil {
@@ -634,7 +647,10 @@ func (fr *frame) run() {
 			ci := &cb.instrs[k]
 			i.steps++
 			if i.steps > i.budget {
-				panic(pathEnd{kind: "budget", msg: "instruction budget exhausted in " + fr.fi.name})
+				panic(pathEnd{kind: "budget", msg: "instruction budget exhausted in " + fr.fi.name + " [" + stackOf(fr) + "]"})
+			}
+			if i.steps&0x3fff == 0 && !i.pathDeadline.IsZero() && time.Now().After(i.pathDeadline) {
+				panic(pathEnd{kind: "budget", msg: "per-path time limit exceeded in " + fr.fi.name + " [" + stackOf(fr) + "]"})
 			}
 			switch fr.visit(ci) {
 			case kReturn:
@@ -1135,7 +1151,7 @@ var skipInitPrefixes = []string{"runtime", "internal/abi", "internal/cpu", "inte
 	"encoding/gob", "net/http", "mime", "log/slog", "hash", "vendor/", "golang.org/x/net", "golang.org/x/sys", "golang.org/x/crypto",
 	"google.golang.org/protobuf", "github.com/nyaruka/phonenumbers", "github.com/gabriel-vasile/mimetype", "github.com/go-playground/validator",
 	"github.com/go-playground/locales", "github.com/go-playground/universal-translator", "database/sql", "compress", "archive", "image", "html/template", "text/template",
-	"github.com/antlr4-go", "encoding/json", "encoding/xml", "github.com/leodido", "github.com/google/uuid", "github.com/gorilla", "github.com/go-chi", "github.com/stretchr",
+	"github.com/antlr4-go", "encoding/xml", "github.com/leodido", "github.com/google/uuid", "github.com/gorilla", "github.com/go-chi", "github.com/stretchr",
 	"github.com/davecgh", "github.com/pmezard", "gopkg.in/yaml", "github.com/Shopify", "gopkg.in/alexcesaro", "github.com/sergi", "go/", "flag", "embed", "io/ioutil", "path", "bufio",
 	"container", "context", "encoding/base64", "encoding/hex", "encoding/binary", "encoding/csv", "expvar", "debug", "text/tabwriter", "text/scanner", "log"}
 
